@@ -451,9 +451,42 @@ def make_batch_jobs(ctx: Ctx, n: int, avoid_known: bool = True) -> list[dict]:
     if len(cases) < 1000:
         raise ToolFailure(f"corpus too small: {len(cases)} cases under {REPO}/test-data/unit")
     jobs = []
+    special = [c for c in cases if mutate.has_special_forms(c.main)]
     for i in range(n):
         r = rng.random()
-        if r < 0.04:
+        if i < 2:
+            # error-path amplifier, whole: every value of the typed universe against every parameter type (one program per
+            # rendering mode; the forms are drawn anew, so the two texts differ and neither is answered from the cache)
+            n_u = len(gen.MATRIX_UNIVERSE)
+            src, _lab = gen.mismatch_matrix(rng, n_u, n_u - 2)
+            jobs.append({"id": f"M{i}", "origin": "gen:mismatch-matrix-full", "kinds": ["generated"], "files": {"main.py": src},
+                         "flags": [] if i == 0 else [rng.choice(["--pretty", "--show-error-context"])]})
+        elif r < 0.025:
+            # … and in random parts (a crash in one message hides the later ones of the same program), sometimes mutated
+            src, lab = gen.mismatch_matrix(rng, rng.randint(6, 16), rng.randint(5, 12))
+            kinds = ["generated"]
+            if rng.random() < 0.4:
+                k = rng.choice(["elements", "misarg", "retype", "crosswire"])
+                src = mutate.mutate(k, src, rng, "")
+                kinds.append(k)
+            jobs.append({"id": f"X{i}", "origin": "gen:" + lab, "kinds": kinds, "files": {"main.py": src},
+                         "flags": rng.choice([[], [], ["--pretty"], ["--show-error-context"]])})
+        elif r < 0.085:
+            # element-level mutations inside special forms / plugin-handled calls: cases of the corpus that contain them
+            c = rng.choice(special)
+            files = dict(c.files)
+            files["main.py"] = c.main
+            kinds = []
+            for _k in range(rng.choice([1, 1, 2])):
+                tgt = "main.py" if (not c.files or rng.random() < 0.8 or not mutate.has_special_forms("".join(c.files.values()))) \
+                    else rng.choice(sorted(files))
+                files[tgt] = mutate.elements(files[tgt], rng)
+                kinds.append("elements")
+            if rng.random() < 0.25:
+                files["main.py"] = mutate.misarg(files["main.py"], rng)
+                kinds.append("misarg")
+            jobs.append({"id": f"e{i}", "origin": c.name, "kinds": kinds, "files": files, "flags": []})
+        elif r < 0.12:
             # partial types refined in nested places (incl. refining calls nested in refining calls on the same variable)
             blocks = [gen.partial_block(f"v{j}", rng) for j in range(rng.randint(2, 5))]
             jobs.append({"id": f"p{i}", "origin": "gen:partial-focus", "kinds": ["generated"],
@@ -1124,6 +1157,7 @@ WITNESSES = [
                                    {"main.py": "x = 1\n"}], [], "daemon"),
     ("daemon-blocker-in-reprocess", "corpus/c20/daemon_blocker_in_reprocess.json", [], "daemon"),
     ("daemon-placeholder-snapshot", "corpus/c20/daemon_placeholder_snapshot.json", [], "daemon"),
+    ("daemon-deleted-import-after-blocker", "corpus/c20/daemon_deleted_import.json", [], "daemon"),
     # a function that has to be deferred twice: the daemon runs a single second pass after an edit
     ("daemon-single-second-pass", [{"main.py": "x: int = 1\n"}, {"main.py": gen.defer_chain(2)}], [], "daemon-compare"),
     # a module-level function `f`, then a method `f` overriding incompatibly: the daemon prints the subclass signature without `self`
